@@ -38,3 +38,13 @@ _stub("C11", "Decides structural clauses of C11: the repository's (type, format)
              "the font is fully loaded before the order changes in the callee and at both callers; argument validation raises "
              "before mutation. Does NOT decide the permutation arithmetic of _sort_by_gid or tables outside the four containers.",
       "_sort_by_gid arithmetic (unit-tested); cmap/hmtx/glyf/COLR which fontTools keys by glyph name")
+
+_stub("C16", "Decides structural clauses of C16: in paint.transformed every specialised paint is dominated by the range predicate of "
+             "its otData field type on the very values it stores (int16 / F2Dot14), is built from the right affine components under "
+             "the conditions that make it denote the affine (no skew, no translation, s != 1 before dividing, (1==s)==(0==d)), and "
+             "everything else falls through to PaintTransform; gradient check_overflows (constant-folded over its loops) bounds every "
+             "coordinate by its otData type range and apply_transform runs it on the gradient it returns unless the SVG back end "
+             "opts out; gettransform/to_ufo_paint/otData field sets agree per transform class; fixed.py range constants and "
+             "predicates equal the OpenType ranges. Does NOT decide numeric equality of the emitted composition with the affine, "
+             "nor behaviour at almost_equal boundaries.",
+      "numeric equality of encodings; almost_equal boundary behaviour; _decompose_uniform_transform arithmetic")
